@@ -282,12 +282,17 @@ func c09Singles(yield func(c09Case) bool) {
 func TestVerif_C09(t *testing.T) {
 	k := verifkit.Start(t, "C09")
 	prop := c09Prop(t, k)
+	wire := wireProp(k.Record, true)
 	k.Regress(t, func(sub string, raw json.RawMessage) error {
 		if sub == "long-invalid-runs" {
 			return nil // belongs to the long-run half of C09
+		}
+		if strings.HasPrefix(sub, "wire") {
+			return verifkit.Decode(raw, wire)
 		}
 		return verifkit.Decode(raw, prop)
 	})
 	verifkit.Enumerate(k, t, "single-message-hoplimit-x-type", true, c09Singles, prop)
 	verifkit.Rapid(k, t, "mixed-sequences", k.N(1500, 400000), c09Gen, prop)
+	verifkit.Rapid(k, t, "wire-bytes", k.N(20000, 4000000), wireGen, wire)
 }
